@@ -1,4 +1,6 @@
 """C02 - primal output is a feasible, self-consistent worst-case instance."""
+import os
+
 from pv import oracles, driver
 from pv.checks import _solvebase as sb
 
@@ -12,8 +14,21 @@ DECIDING_COUNTER = "decided"
 MIN_DECIDED = {"quick": 60, "thorough": 1000}
 
 
+STANDINS = os.path.join(os.path.dirname(os.path.dirname(os.path.abspath(__file__))), "standins")
+
+
 def plan(tier, seed):
-    return sb.plan(tier, seed, per_shard_quick=12, per_shard_thorough=400)
+    return sb.plan(tier, seed, per_shard_quick=12, per_shard_thorough=400, extra={"extra_path": [STANDINS]})
+
+
+def config_fn(rng):
+    cfg = driver.random_config(rng)
+    if rng.random() < 0.2:
+        cfg["wrapper"] = "mosek"       # the MOSEK back-end through the stand-in (DESIGN 2.6)
+        cfg["solver"] = "CLARABEL"
+    if rng.random() < 0.08:
+        cfg["verbose"] = 2
+    return cfg
 
 
 def make_posthoc(machine, rng):
@@ -65,4 +80,4 @@ def judge(acc, case, prog, cfg, rng):
 
 
 def run_shard(spec):
-    return sb.run_generic(spec, judge)
+    return sb.run_generic(spec, judge, config_fn=config_fn)
